@@ -14,6 +14,7 @@ import numpy as np
 from .. import coqrun
 from ..core import Corr
 from ..coqrun import cz, cnat, cstr, clist, copt, cbool
+from ..translate import fragglue
 
 PID = "C15"
 ALLOWED_AXIOMS = set()
@@ -22,8 +23,11 @@ REQ = ["QV.Common.Outcome", "QV.Model.ChgMult", "QV.Model.Fragment"]
 REQF = ["QV.Common.Outcome", "QV.Model.Formula"]
 
 
+OMIT = "omit"        # an optional argument that the call does not pass (JSON-able, so that a replay can redo the call)
+
+
 def translate(ctx):
-    return None
+    fragglue.generate(ctx.repo)
 
 
 # ------------------------------------------------------------------------------------------------
@@ -81,15 +85,30 @@ def build(spec):
 
 
 def call_get_fragment(m, real, ghost, group, orient):
-    """-> (constructor kwargs or None, molecule or None, exception kind or None)"""
+    """-> (constructor kwargs or None, molecule or None, exception kind or None, were the caller's lists left alone).
+    ghost / group / orient may be OMIT (or None for group / orient): then the argument is not passed and the default applies."""
+    import copy
+    args = [copy.deepcopy(real)]
+    kwargs = {}
+    if ghost != OMIT:
+        kwargs["ghost"] = copy.deepcopy(ghost)
+    if orient not in (OMIT, None):
+        kwargs["orient"] = orient
+    if group not in (OMIT, None):
+        kwargs["group_fragments"] = group
     with ctor_tapped() as tap:
         try:
-            sub = quiet(m.get_fragment, real, ghost, orient=orient, group_fragments=group)
+            sub = quiet(m.get_fragment, *args, **kwargs)
             err = None
         except Exception as e:
             sub, err = None, ekind(e)
     kw = tap.calls[0] if tap.calls else None
-    return kw, sub, err
+    untouched = args[0] == real and kwargs.get("ghost", ghost) == ghost
+    return kw, sub, err, untouched
+
+
+def cfsel(x):
+    return f"(SInt {cnat(x)})" if isinstance(x, int) else f"(SList {clist(list(x), cnat)})"
 
 
 # ------------------------------------------------------------------------------------------------
@@ -390,6 +409,28 @@ def safely(oracle, *a):
         return f"the result is malformed: evaluating the conservation predicates raised {e!r}"
 
 
+def history_check(parent, selections):
+    """the parent is a value: extracting fragments and asking for electron counts / energies / formulas leaves it as it was,
+    and asking again gives the same answers"""
+    def answers():
+        out = [parent.get_hash(), repr(parent.dict()), parent.nelectrons(), parent.nuclear_repulsion_energy(), parent.get_molecular_formula()]
+        for k in range(len(parent.fragments)):
+            out += [parent.nelectrons(k), parent.nuclear_repulsion_energy(k)]
+        return [repr(x) for x in out]            # repr: a NaN energy (coincident nuclei) must compare equal to itself
+    before = answers()
+    subs = []
+    for real, ghost, group, orient in selections:
+        kw, sub, err, _ = call_get_fragment(parent, real, ghost, group, orient)
+        subs.append(None if sub is None else sub.get_hash())
+    if answers() != before:
+        return "the parent molecule (or what it answers) changed while fragments were extracted from it"
+    for (real, ghost, group, orient), h in zip(selections, subs):
+        kw, sub, err, _ = call_get_fragment(parent, real, ghost, group, orient)
+        if (None if sub is None else sub.get_hash()) != h:
+            return f"get_fragment({real}, {ghost}) gave another molecule when asked again"
+    return None
+
+
 def has_ghost_in_real_selection(parent, real):
     return any(not bool(parent.real[int(i)]) for f in real for i in parent.fragments[f])
 
@@ -409,8 +450,50 @@ def correspond(ctx):
     fterms, fmeta = [], []
     eterms, emeta = [], []
     nterms, nmeta = [], []
+    mterms, mmeta = [], []
+    dterms, dmeta = [], []
+
+    def add_formula_checks(m, case):
+        """Molecule.get_molecular_formula with and without its arguments"""
+        syms = [str(x) for x in m.symbols]
+        for order, chgmult in [(None, None), ("alphabetical", None), ("hill", None), (rng.choice(["Hill", "HILL", "Alphabetical"]), False),
+                               (None, True), ("hill", True), ("bad", None)]:
+            kwargs = {}
+            if order is not None:
+                kwargs["order"] = order
+            if chgmult is not None:
+                kwargs["chgmult"] = chgmult
+            try:
+                out = m.get_molecular_formula(**kwargs)
+                res = f"(Ok {cstr(out)})"
+            except Exception as e:
+                out, res = None, cerr(ekind(e))
+            corr.count("get_molecular_formula")
+            corr.hit("get_molecular_formula:" + ("order_default" if order is None else "order_given") + ","
+                     + ("chgmult_default" if chgmult is None else f"chgmult_{chgmult}") + "," + ("ok" if out is not None else "error"))
+            fcase = dict(case, molecular_formula={"order": order, "chgmult": chgmult})
+            bad = None
+            if order == "bad":
+                if out is not None:
+                    bad = "get_molecular_formula accepted an unsupported order"
+            elif out is None:
+                bad = "get_molecular_formula raised for a supported order"
+            elif not chgmult:
+                bad = oracle_formula(syms, order or "alphabetical", out)
+            else:
+                core = out.split("^")[-1].rstrip("+-")
+                bad = oracle_formula(syms, order or "alphabetical", core)
+            if bad:
+                corr.failures.append({"stream": "oracle:get_molecular_formula", "case": fcase, "what": bad, "observed": out})
+            try:
+                mterms.append(f"({clist(syms, cstr)}, {cz(as_int(m.molecular_charge))}, {cz(as_int(m.molecular_multiplicity))}, "
+                              f"{copt(order, cstr)}, {copt(chgmult, cbool)}, {res})")
+                mmeta.append(fcase)
+            except ValueError:
+                corr.hit("outside_model_domain")
 
     def add_molecule_checks(m, label, case):
+        add_formula_checks(m, case)
         part = sorted(int(i) for f in m.fragments for i in f) == list(range(len(m.symbols)))
         corr.hit("fragments_partition_the_atoms" if part else "fragments_do_not_partition_the_atoms")
         bad = safely(oracle_electrons, m)
@@ -451,12 +534,20 @@ def correspond(ctx):
             corr.count("nre")
 
     def run_case(parent, pspec, real, ghost, group, orient, stream, validated_parent=True):
+        """group / orient None and ghost OMIT: the argument is left to its default"""
         case = {"parent": pspec, "real": real, "ghost": ghost, "group_fragments": group, "orient": orient, "validated_parent": validated_parent}
-        kw, sub, err = call_get_fragment(parent, real, ghost, group, orient)
+        kw, sub, err, untouched = call_get_fragment(parent, real, ghost, group, orient)
         corr.count(stream)
         corr.hit("get_fragment_" + ("ok" if err is None else err))
+        corr.hit("call:" + ("real_int" if isinstance(real, int) else "real_list") + ","
+                 + ("ghost_omitted" if ghost == OMIT else "ghost_None" if ghost is None else "ghost_int" if isinstance(ghost, int) else "ghost_list")
+                 + "," + ("group_default" if group is None else f"group_{group}") + "," + ("orient_default" if orient is None else f"orient_{orient}"))
+        if not untouched:
+            corr.failures.append({"stream": "oracle:" + stream, "case": case, "what": "get_fragment modified the caller's real / ghost lists", "observed": {}})
+        group_eff = True if group is None else group          # the documented defaults
+        orient_eff = False if orient is None else orient
         rl = [real] if isinstance(real, int) else list(real)
-        gl = [] if ghost is None else ([ghost] if isinstance(ghost, int) else list(ghost))
+        gl = [] if ghost in (None, OMIT) else ([ghost] if isinstance(ghost, int) else list(ghost))
         nfr = len(parent.fragments)
         regular = (len(set(rl)) == len(rl) and len(set(gl)) == len(gl) and not (set(rl) & set(gl))
                    and all(0 <= f < nfr for f in rl + gl) and (rl or gl))
@@ -465,7 +556,7 @@ def correspond(ctx):
             corr.nontriv(case)
             corr.hit("scope:real_selection_contains_parent_ghost_atoms" if unghosted else "scope:real_selection_all_real")
             if regular:
-                bad = safely(oracle_fragment, parent, rl, gl, group, orient, sub)
+                bad = safely(oracle_fragment, parent, rl, gl, group_eff, orient_eff, sub)
                 if bad:
                     corr.failures.append({"stream": "oracle:" + stream, "case": case, "what": bad, "observed": {"sub": sub.dict().__repr__()[:600]}})
             if rng.random() < 0.15:
@@ -477,15 +568,22 @@ def correspond(ctx):
             if not ok_refusal:
                 corr.failures.append({"stream": "oracle:" + stream, "case": case,
                                       "what": f"get_fragment raised {err} for a regular selection on a valid parent", "observed": {"error": err}})
-        # the model
+        # the model, through the public entry point's argument glue
         if any(f < 0 for f in rl + gl):
             corr.hit("negative_index_outside_model")
             return
         try:
             pm = cpmol(parent)
-            ed = cerr(err) if kw is None else f"(Ok {ccdict(kw)})"
+            if kw is None:
+                ed = cerr(err)
+            else:
+                if not isinstance(kw.get("orient"), bool):
+                    corr.failures.append({"stream": "oracle:" + stream, "case": case, "observed": {"orient": repr(kw.get("orient"))},
+                                          "what": "get_fragment did not hand a boolean `orient` to the constructor"})
+                    return
+                ed = f"(Ok ({ccdict(kw)}, {cbool(kw['orient'])}))"
             if sub is not None:
-                geom = kw["geometry"] if orient else sub.geometry
+                geom = kw["geometry"] if kw["orient"] else sub.geometry
                 em = "(Ok %s)" % cpmol_parts(sub.symbols, sub.masses, geom, sub.real, sub.fragments, sub.fragment_charges,
                                              sub.fragment_multiplicities, sub.molecular_charge, sub.molecular_multiplicity)
             else:
@@ -493,7 +591,12 @@ def correspond(ctx):
         except ValueError:
             corr.hit("outside_model_domain")
             return
-        fterms.append(f"({pm}, {clist(rl, cnat)}, {clist(gl, cnat)}, {cbool(group)}, {ed}, {em})")
+        except (KeyError, IndexError, TypeError) as ex:
+            corr.disagreements.append({"stream": "get_fragment", "case": case, "impl": f"the constructor arguments cannot be read: {ex!r}; keys {sorted(kw or {})}",
+                                       "model": "symbols, geometry, masses, real, fragments, fragment_charges, fragment_multiplicities (+ totals when grouped)"})
+            return
+        gsel = "None" if ghost in (None, OMIT) else f"(Some {cfsel(ghost)})"
+        fterms.append(f"({pm}, {cfsel(real)}, {gsel}, {copt(orient, cbool)}, {copt(group, cbool)}, {ed}, {em})")
         fmeta.append(case)
 
     # corpus: the docstring-style cases and the edge cases found while building the check
@@ -504,6 +607,10 @@ def correspond(ctx):
         for group in (True, False):
             for orient in (False, True):
                 run_case(p0, corpus_parent, real, ghost, group, orient, "corpus")
+    # argument forms and defaults of the public call: bare indices (0 included), ghost absent / None, options left to their defaults
+    for real, ghost in [(0, OMIT), (2, OMIT), ([1], 0), (1, 0), ([2, 0], OMIT), ([0], 2), (2, [0, 1]), ([1, 2], 0), ([2, 1], None)]:
+        for group, orient in [(None, None), (None, False), (True, None), (False, None), (None, True)]:
+            run_case(p0, corpus_parent, real, ghost, group, orient, "corpus_call_forms")
     add_molecule_checks(p0, "corpus", {"parent": corpus_parent})
 
     nb = 0
@@ -525,17 +632,33 @@ def correspond(ctx):
             corr.sample({"parent": spec})
         add_molecule_checks(parent, "parent", {"parent": spec})
         pairs = subset_pairs(rng, nfr, per_parent)
+        sels = [[r, g, rng.choice([None, True, False]), False] for r, g in pairs[:5]]
+        bad = safely(history_check, parent, sels)
+        corr.count("oracle:history")
+        if bad:
+            corr.failures.append({"stream": "oracle:history", "case": {"parent": spec, "history": sels}, "what": bad, "observed": {}})
         for real, ghost in pairs:
             group = rng.random() < 0.5
             orient = rng.random() < 0.25
             run_case(parent, spec, real, ghost, group, orient, "subsets")
             if rng.random() < 0.25:
                 run_case(parent, spec, real, ghost, not group, False, "subsets")
+            if rng.random() < 0.3:
+                # the same selection in another argument form, options left to their defaults
+                r2 = real[0] if len(real) == 1 and rng.random() < 0.7 else real
+                g2 = OMIT if not ghost else (ghost[0] if len(ghost) == 1 and rng.random() < 0.7 else ghost)
+                if not real:
+                    g2 = ghost
+                run_case(parent, spec, r2, g2, rng.choice([None, None, True, False]), rng.choice([None, None, False, True]), "call_forms")
         # irregular selections
         run_case(parent, spec, [0], [0], rng.random() < 0.5, False, "irregular")
         run_case(parent, spec, [nfr + rng.randrange(3)], [], rng.random() < 0.5, False, "irregular")
         run_case(parent, spec, [], [], rng.random() < 0.5, False, "irregular")
         run_case(parent, spec, rng.randrange(nfr), None, rng.random() < 0.5, False, "irregular")
+        if nfr > 1:
+            a, b = rng.sample(range(nfr), 2)
+            run_case(parent, spec, a, b, None, None, "call_forms")
+            run_case(parent, spec, [a], b, rng.choice([None, False]), None, "call_forms")
 
     # unvalidated parents with non-contiguous fragments (the index remap of the order-preserving path)
     nnc = 120 if ctx.thorough else 20
@@ -607,6 +730,17 @@ def correspond(ctx):
                     corr.failures.append({"stream": "oracle:formula", "case": {"symbols": syms, "order": o}, "what": bad, "observed": out})
                 gterms.append(f"({clist(syms, cstr)}, {cstr(o)}, (Ok {cstr(out)}))")
                 gmeta.append({"symbols": syms, "order": o})
+                if order == "alphabetical" and rng.random() < 0.3:
+                    # both functions called without `order`: the documented default is alphabetical
+                    d1 = molecular_formula_from_symbols(syms)
+                    d2 = order_molecular_formula(d1) if d1 else d1
+                    corr.count("formula_default_order")
+                    if d1 != molecular_formula_from_symbols(syms, order="alphabetical") or d2 != d1:
+                        corr.failures.append({"stream": "oracle:formula", "case": {"symbols": syms, "order": None},
+                                              "what": "the formula without an `order` argument is not the alphabetical one", "observed": [d1, d2]})
+                    if d1:
+                        dterms.append(f"({clist(syms, cstr)}, {cstr(d1)}, {cstr(d2)})")
+                        dmeta.append({"symbols": syms, "order": None})
                 if rng.random() < 0.35:
                     o2 = rng.choice(["alphabetical", "hill"])
                     re_out = order_molecular_formula(out, order=o2)
@@ -635,8 +769,12 @@ def correspond(ctx):
                 got, _ = coqrun.eval_terms(tag, req, "", [show(terms[b])])
             corr.disagreements.append({"stream": stream, "case": meta[b], "impl": terms[b][-1500:], "model": got})
 
-    run("C15frag", REQ, "check_fragment", fterms, fmeta, "pmol * list nat * list nat * bool * outcome cdict * outcome pmol", 150, "get_fragment",
-        lambda t: f"let '(p, r, g, b, _, _) := {t} in (get_fragment p r g b, sub_molecule p r g b)")
+    run("C15frag", REQ, "check_fragment_pub", fterms, fmeta,
+        "pmol * fsel * option fsel * option bool * option bool * outcome (cdict * bool) * outcome pmol", 150, "get_fragment",
+        lambda t: f"let '(p, r, g, o, b, _, _) := {t} in (get_fragment_pub p r g o b, sub_molecule_pub p r g b)")
+    run("C15molf", REQF, "check_mol_formula", mterms, mmeta, "list string * Z * Z * option string * option bool * outcome string", 600, "get_molecular_formula",
+        lambda t: f"let '(s, c, m, o, b, _) := {t} in mol_formula s c m o b")
+    run("C15dflt", REQF, "check_default_order", dterms, dmeta, "list string * string * string", 1500, "formula_default_order", None)
     run("C15elec", REQ, "check_electrons", eterms, emeta, "pmol * Z * list Z", 300, "nelectrons",
         lambda t: f"let '(p, _, _) := {t} in (nelectrons p, map (nelectrons_frag p) (seq 0 (List.length (p_frags p))))")
     run("C15nre", REQ, "check_nre", nterms, nmeta, "pmol * Q * list Q * Q", 150, "nre", None)
@@ -664,26 +802,57 @@ def replay(ctx, rp):
             out = ekind(e)
         return {"input": case, "implementation": out, "fails": False}
     if "symbols" in case and "order" in case:
+        if case["order"] is None:
+            out = molecular_formula_from_symbols(case["symbols"])
+            bad = None if out == molecular_formula_from_symbols(case["symbols"], order="alphabetical") else "default order is not alphabetical"
+            bad = bad or oracle_formula(case["symbols"], "alphabetical", out)
+            return {"input": case, "implementation": out, "oracle": bad, "fails": bool(bad)}
         out = molecular_formula_from_symbols(case["symbols"], order=case["order"])
         bad = oracle_formula(case["symbols"], case["order"], out)
         return {"input": case, "implementation": out, "oracle": bad, "fails": bool(bad)}
     pspec = dict(case["parent"])
     parent = quiet(Molecule, **pspec)
-    if "real" not in case:
+    target = parent
+    sub = None
+    if "history" in case:
+        bad = safely(history_check, parent, case["history"])
+        return {"input": case, "oracle": bad, "fails": bool(bad)}
+    if "real" in case:
+        kw, sub, err, untouched = call_get_fragment(parent, case["real"], case["ghost"], case["group_fragments"], case["orient"])
+        if not untouched:
+            return {"input": case, "oracle": "get_fragment modified the caller's lists", "fails": True}
+        if sub is None:
+            return {"input": case, "implementation": {"error": err}, "oracle": rp.get("what"), "fails": "raised" in (rp.get("what") or "")}
+        target = sub
+    if "molecular_formula" in case:
+        mf = case["molecular_formula"]
+        kwargs = {k: v for k, v in (("order", mf["order"]), ("chgmult", mf["chgmult"])) if v is not None}
+        try:
+            out = target.get_molecular_formula(**kwargs)
+        except Exception as e:
+            return {"input": case, "implementation": ekind(e), "fails": mf["order"] != "bad"}
+        if mf["order"] == "bad":
+            return {"input": case, "implementation": out, "fails": True}
+        core = out.split("^")[-1].rstrip("+-") if mf["chgmult"] else out
+        bad = oracle_formula([str(x) for x in target.symbols], mf["order"] or "alphabetical", core)
+        return {"input": case, "implementation": out, "oracle": bad, "fails": bool(bad)}
+    if sub is None:
         bad = safely(oracle_electrons, parent) or safely(oracle_nre, parent, ctx.rng)
         return {"input": case, "oracle": bad, "fails": bool(bad)}
-    kw, sub, err = call_get_fragment(parent, case["real"], case["ghost"], case["group_fragments"], case["orient"])
-    if sub is None:
-        return {"input": case, "implementation": {"error": err}, "oracle": rp.get("what"), "fails": "raised" in (rp.get("what") or "")}
     rl = [case["real"]] if isinstance(case["real"], int) else list(case["real"])
-    gl = [] if case["ghost"] is None else ([case["ghost"]] if isinstance(case["ghost"], int) else list(case["ghost"]))
-    bad = safely(oracle_fragment, parent, rl, gl, case["group_fragments"], case["orient"], sub) or safely(oracle_electrons, sub) or safely(oracle_nre, sub, ctx.rng)
+    gl = [] if case["ghost"] in (None, OMIT) else ([case["ghost"]] if isinstance(case["ghost"], int) else list(case["ghost"]))
+    group_eff = True if case["group_fragments"] is None else case["group_fragments"]
+    orient_eff = False if case["orient"] is None else case["orient"]
+    bad = safely(oracle_fragment, parent, rl, gl, group_eff, orient_eff, sub) or safely(oracle_electrons, sub) or safely(oracle_nre, sub, ctx.rng)
     return {"input": case, "implementation": repr(sub.dict())[:1500], "oracle": bad, "fails": bool(bad)}
 
 
 KNOWN = {}
 
 TRUSTED = [
+    "fail-closed translator harness/translate/fragglue.py -> coq/Gen/FragGlue.v (defaults of get_fragment / get_molecular_formula / "
+    "molecular_formula_from_symbols / order_molecular_formula, supported order names, the (charge, multiplicity) given to ghost fragments; it also "
+    "checks the argument-normalising prelude, the overlap test, the totals of the grouped path, the `ifr` tests and the constructor call)",
     "hand-written models coq/Model/Fragment.v (get_fragment both paths, nelectrons, the pair terms of nuclear_repulsion_energy) and "
     "coq/Model/Formula.v, tied by differential execution: the keyword arguments get_fragment hands to the Molecule constructor are "
     "observed (the module-level name `Molecule` is substituted by a recording wrapper during the call) and compared with the model, "
@@ -721,14 +890,30 @@ LEVEL_TEXT = (
     "expressions of order_molecular_formula read the written formula back as exactly the (symbol, count) items, for symbols of the form "
     "upper-case letter + non-upper non-digit characters; C15_title_wellformed: title() writes every alphabetic symbol that way and is "
     "idempotent), C15_formula_ext (the formula depends only on the counts) and C15_order_formula_consistent (order_molecular_formula of a "
-    "written formula = the formula of the same symbols in the requested order; hence idempotent), C15_subsystem_validates_ungrouped. "
+    "written formula = the formula of the same symbols in the requested order; hence idempotent), C15_subsystem_validates_ungrouped; "
+    "wave 3: C15_fragment_bookkeeping_unconditional (no length side condition), C15_electrons_conserved_grouped / _grouped_per_fragment / "
+    "_ungrouped (the sub-molecule has exactly the electrons of the real-selected fragments; totals of the order-preserving path are formed "
+    "from the real-selected fragments), C15_public_defaults / C15_public_glue / C15_public_sub_molecule (Molecule.get_fragment with index-or-list "
+    "arguments, absent ghost and generated defaults is the list-level function; orient only reaches the constructor), C15_nelectrons_ifr / "
+    "C15_nre_ifr (the ifr argument incl. IndexError), C15_supported_orders, C15_molecule_formula (get_molecular_formula with its defaults). "
     "Tied to the code on every run by exact differential execution over validated parents with 1-5 fragments (ghost atoms, charged and "
     "open-shell fragments, isotopic masses), unvalidated parents with non-contiguous fragments, ordered pairs of disjoint fragment subsets, "
-    "irregular selections, both group_fragments values and orient; nelectrons / nuclear_repulsion_energy whole and per fragment; every "
+    "irregular selections, both group_fragments values and orient, every argument form of the public call (bare index incl. 0, list, ghost "
+    "absent / None, options passed or left to their defaults; per-form hit counts), Molecule.get_molecular_formula with and without order / "
+    "chgmult, the formula functions without `order`, a history check (the parent and all its answers unchanged by extractions; extractions "
+    "repeatable; caller's lists untouched); nelectrons / nuclear_repulsion_energy whole and per fragment; every "
     "symbol multiset up to size 4 (quick) / 6 (thorough) over a 12-element alphabet in both orders; and by the conservation oracle "
     "evaluated directly on the implementation's results (incl. rigid motion + atom reordering of the repulsion energy).")
 LEVEL_NOTE = (
-    "Trusted: Coq kernel + vm_compute; the hand-written models; the harness. subsystem_validates is proved for both paths (for group_fragments=False under the "
+    "Clause map: (1,2) exactly the chosen fragments' atoms, real-first or parent order: atoms_conserved_grouped/_ungrouped, "
+    "fragment_bookkeeping_unconditional, public_defaults/glue/sub_molecule [full; orient: same constructor arguments, frame = C16 + oracle]; "
+    "(3) ghost flags, neutral singlets, kept (c,m), totals from the real fragments: atoms_conserved_*, fragment_bookkeeping, "
+    "electrons_conserved_ungrouped (totals), subsystem_validates_* [full; real selections containing parent ghosts are a documented scope "
+    "restriction]; (4) electrons: electrons_per_fragment, electrons_additive, nelectrons_ifr, electrons_conserved_* [full]; (5) repulsion: "
+    "nre_real_only, nre_rigid_invariant, nre_reorder_invariant, nre_sum_invariant, nre_ifr [terms level; the square root is outside the model: "
+    "enclosure + correspondence]; (6) formula: formula_counts, formula_ordered, formula_parse_roundtrip, order_formula_consistent, "
+    "supported_orders, molecule_formula [full]. "
+    "Trusted: Coq kernel + vm_compute; the hand-written models; the translator of the argument glue; the harness. subsystem_validates is proved for both paths (for group_fragments=False under the "
     "hypothesis that the new fragments are contiguous and in order, which from_schema checks and validated parents guarantee); order_molecular_formula is modelled (order_formula: cut at upper-case letters, non-digits then digits, ignored "
     "remainder, ValueError when the text does not start with an upper-case letter) and compared on written formulas and irregular strings. The square root is outside the model: "
     "nuclear-repulsion theorems are about the multiset of (weight, squared distance) terms. Fractional charges outside the model. No axioms.")
